@@ -142,6 +142,38 @@ def riemOp (j : Json) : R Json := do
              ("g_spec", ofList (ofList ofRat) (riemGSpec n x)),
              ("sigma_hat", ofList (ofList ofRat) (sigmaHat n sg))])
 
+/-- a reuse session: the same two stacks (cells 0 and 1; or one stack passed twice) handed to several
+    successive `compare()` calls.  `results` = the heap model as coded (aliasing / in-place flags from
+    the source text), `spec` = every method on the original stacks, `cells` = the caller's arrays after
+    the last call -/
+def sessionOp (j : Json) : R Json := do
+  let n ← fld j "n" >>= asNat
+  let xs ← fld j "x" >>= asList (asList asFloat)
+  let ys ← fld j "y" >>= asList (asList asFloat)
+  let same ← asBool (fldD j "same" (Json.bool false))
+  let steps ← fld j "steps" >>= asArr
+  let st : Store (List Float) := if same then [xs] else [xs, ys]
+  let b := if same then 0 else 1
+  let mut calls : List (Call (List Float) (R Json)) := []
+  let mut specs : List Json := []
+  for s in steps do
+    let method ← fld s "method" >>= asStr
+    let sg ← asSigma asFloat (fldD s "sigma" Json.null)
+    let (pre, inner) : (List Float → List Float) × String :=
+      if method = "corr" then (center, "cosine")
+      else if method = "corr_cov" then (center, "cosine_cov")
+      else (id, method)
+    calls := calls ++ [codedCall method xs.length pre (measureF inner n sg [])]
+    let rows ← (compareAll (measureF method n sg []) xs (if same then xs else ys)).mapM (fun r => r.mapM id)
+    specs := specs ++ [ofList (ofList id) rows]
+  let run := sessionRun calls st 0 b
+  let res ← run.2.mapM (fun m => do
+    let rows ← m.mapM (fun r => r.mapM id)
+    pure (ofList (ofList id) rows))
+  pure (obj [("results", Json.arr res.toArray), ("spec", Json.arr specs.toArray),
+             ("cells", ofList (ofList (ofList ofFloat)) [run.1.getD 0 [], run.1.getD b []]),
+             ("n_cells", ofNat run.1.length)])
+
 def handle : Handler := fun op j =>
   match op with
   | "c03.compare" => some (compareOp j)
@@ -154,6 +186,7 @@ def handle : Handler := fun op j =>
   | "c03.kernel" => some (kernelOp j)
   | "c03.passes" => some (passesOp j)
   | "c03.riem" => some (riemOp j)
+  | "c03.session" => some (sessionOp j)
   | _ => none
 
 end Rsa.Drv.C03
